@@ -317,11 +317,36 @@ def coq_input(val, psel, args, desc, aevs):
     return enc.P(enc.P(enc.P(enc.L([enc.B(b) for b in val]), enc.N(psel)), opts), evs)
 
 
+def epoch_host_scenario(r):
+    """host-only slices at today's epoch in microseconds (~1.76e15: doubles are 0.25 us apart there) with short but
+    POSITIVE durations - some below half that spacing, so that ts + dur == ts in double arithmetic.  Every slice has a
+    positive duration and no rule removes it."""
+    s = scenario.Scenario()
+    s.freq = 1024.0
+    s.ranks = r.choice([1, 2])
+    uid = 0
+    for rank in range(s.ranks):
+        evs, t = [], 1.76e15 + 1024.0 * r.randrange(0, 1 << 20)
+        for k in range(r.randrange(3, 10)):
+            t += 4.0 * r.randrange(1, 50)
+            d = r.choice([0.0625, 0.1, 0.125, 0.25, 0.5, 3.0])
+            uid += 1
+            u = f"u{uid}"
+            e = {"name": f"HostFn_{k % 4}", "ph": "X", "pid": rank, "tid": r.choice([11, 12]), "ts": t, "dur": d,
+                 "args": {"uid": u}}
+            s.truth[u] = {"rank": rank, "kind": "host", "name": e["name"], "start": t, "end": t + d, "device": False,
+                          "job": 0, "user_keys": [], "tid": e["tid"]}
+            evs.append(e)
+        s.files[f"rank{rank}_job0.json"] = evs
+    s.meta["epoch_host"] = True
+    return s
+
+
 def one(ctx, r, atoms, work, case=None):
     """generate (or take) one case, run it, return record"""
     if case is None:
-        s = scenario.gen_scenario(r)
-        if s.ranks >= 2 and r.random() < 0.5:
+        s = epoch_host_scenario(r) if r.random() < 0.06 else scenario.gen_scenario(r)
+        if s.ranks >= 2 and r.random() < 0.5 and not s.meta.get("epoch_host"):
             # chain all-reduce groups (complete, every rank contributes): clock alignment and bandwidth stages then
             # buffer and shift real work instead of passing everything through
             collectives.add_chain_allreduce(r, s, n_groups=r.choice([1, 2, 3]))
